@@ -339,11 +339,13 @@ char *out;
 if (PyUnicode_Check(obj)) {{+
 ^#if PY_MAJOR_VERSION >= 3
 PyObject *strobj = PyUnicode_AsUTF8String(obj);
+if (strobj == {nullptr}) return 0;
 out = PyBytes_AS_STRING(strobj);
 size = PyBytes_GET_SIZE(strobj);
 value->dataobj = strobj;  // steal reference
 ^#else
 PyObject *strobj = PyUnicode_AsUTF8String(obj);
+if (strobj == {nullptr}) return 0;
 out = PyString_AsString(strobj);
 size = PyString_Size(obj);
 value->dataobj = strobj;  // steal reference
